@@ -20,29 +20,42 @@ import (
 
 type fcase struct {
 	Idx      int
-	Mode     string // oneshot | process
+	Mode     string // oneshot | process | githash-process | githash-oneshot (git hash-object -w --path --stdin through real Git)
 	Kind     string // input kind (see inputs.go)
 	Base     string // N-a: spelling of the base pointer
 	NExt     int    // extension lines in the generated pointer
 	Size     int    // N-c: size
 	Delivery string // chunk plan (oneshot) or packetisation (process)
-	Wt       string // working tree file at the path: absent | same | short10 | big5000
+	Wt       string // working tree file at the path: absent | same | short10 | big5000 | ptrbase (the pointer text the class-N input begins with, as a checkout with smudging skipped leaves it)
 	CfgExt   bool   // an LFS extension (lfs.extension.vx) is configured
+	Progress bool   // GIT_LFS_PROGRESS names an absolute, usable path (clean then copies with a progress callback)
 }
 
 func (c fcase) mode() string {
+	m := c.Mode
 	if c.CfgExt {
-		return c.Mode + "+ext"
+		m += "+ext"
 	}
-	return c.Mode
+	if c.Progress {
+		m += "+progress-env"
+	}
+	return m
 }
 
 func (c fcase) baselineDelivery() string {
 	if c.Mode == "process" {
 		return "pk65516"
 	}
+	if c.gitHash() {
+		return "stdin"
+	}
 	return "whole"
 }
+
+func (c fcase) gitHash() bool { return strings.HasPrefix(c.Mode, "githash-") }
+
+// smallWt: working-tree states whose presence is part of a failure's trigger
+func smallWt(wt string) bool { return wt == "short10" || wt == "big5000" || wt == "ptrbase" }
 
 type viol struct {
 	Sym   string
@@ -137,7 +150,7 @@ func packetizer(r *rand.Rand, name string, n, ptrLen int) fpclient.Packetizer {
 	panic("unknown packetisation " + name)
 }
 
-func setWt(abs, state string, b []byte) {
+func setWt(abs, state string, b []byte, ptrLen int) {
 	os.MkdirAll(filepath.Dir(abs), 0o755)
 	os.Remove(abs)
 	switch state {
@@ -146,6 +159,11 @@ func setWt(abs, state string, b []byte) {
 		os.WriteFile(abs, b, 0o644)
 	case "short10":
 		os.WriteFile(abs, []byte("0123456789"), 0o644)
+	case "ptrbase": // the pointer file a checkout with smudging skipped leaves, while Git streams that text + more bytes
+		if ptrLen <= 0 || ptrLen >= len(b) {
+			panic("wt state ptrbase needs an input that extends a pointer text")
+		}
+		os.WriteFile(abs, b[:ptrLen], 0o644)
 	case "big5000": // the working tree holds the full (large) content while Git sends something else for the path
 		os.WriteFile(abs, bytes.Repeat([]byte("BIGCONTENT"), 500), 0o644)
 	default:
@@ -206,11 +224,27 @@ func execFilter(c fcase, seed int64, o obs) (in input, vs []viol) {
 	}
 	// delivery randomness must not disturb the input construction: separate stream
 	rd := rand.New(rand.NewSource(seed ^ 0x5deece66d))
-	env := sbx.New()
+	var sopts []sbx.Opt
+	if c.Mode == "githash-oneshot" {
+		sopts = append(sopts, sbx.OneShotFilters())
+	}
+	env := sbx.New(sopts...)
 	defer env.Cleanup()
 	repo := env.InitRepo("repo")
 	gitDir := filepath.Join(repo, ".git")
 	os.WriteFile(filepath.Join(repo, ".gitattributes"), []byte("*.bin filter=lfs diff=lfs merge=lfs -text\n"), 0o644)
+	// environment coordinate: GIT_LFS_PROGRESS unset (nil) or an absolute usable path
+	var penv []string
+	progressFile := filepath.Join(env.Root, "lfs-progress.log")
+	if c.Progress {
+		penv = []string{"GIT_LFS_PROGRESS=" + progressFile}
+		o.add("progress_env_cases_"+c.Mode, 1)
+		defer func() {
+			if fi, err := os.Stat(progressFile); err == nil && fi.Size() > 0 {
+				o.add("progress_env_progress_file_written", 1)
+			}
+		}()
+	}
 	if c.CfgExt {
 		for _, kv := range filt.InstallExt(env) {
 			env.MustGit(repo, "config", kv[0], kv[1])
@@ -218,7 +252,7 @@ func execFilter(c fcase, seed int64, o obs) (in input, vs []viol) {
 	}
 	path := "dir/f.bin"
 	abs := filepath.Join(repo, path)
-	setWt(abs, c.Wt, in.B)
+	setWt(abs, c.Wt, in.B, in.PtrLen)
 	add := func(sym, op, what string, extra map[string]any) {
 		vs = append(vs, viol{Sym: sym, Op: op, What: what, Extra: extra})
 	}
@@ -232,7 +266,7 @@ func execFilter(c fcase, seed int64, o obs) (in input, vs []viol) {
 		chunks := pl.Split(in.B)
 		o.add("write_chunks", int64(len(chunks)))
 		if in.Kind != "S-empty" {
-			res := filt.RunChunked(env, repo, chunks, maxPauses, nil, "git-lfs", "clean", "--", path)
+			res := filt.RunChunked(env, repo, chunks, maxPauses, penv, "git-lfs", "clean", "--", path)
 			o.add("processes", 1)
 			if res.TimedOut {
 				add("clean-hang", "clean", "git lfs clean did not finish within the watchdog", nil)
@@ -276,7 +310,7 @@ func execFilter(c fcase, seed int64, o obs) (in input, vs []viol) {
 				// smudge(clean(x)) == x, pointer delivered in chunks too
 				out := res.Stdout
 				sp := chunkPlan(rd, c.Delivery, len(out), len(out))
-				sm := filt.RunChunked(env, repo, sp.Split(out), maxPauses, nil, "git-lfs", "smudge", "--", path)
+				sm := filt.RunChunked(env, repo, sp.Split(out), maxPauses, penv, "git-lfs", "smudge", "--", path)
 				o.add("processes", 1)
 				o.add("smudge_roundtrips_compared", 1)
 				switch {
@@ -293,7 +327,7 @@ func execFilter(c fcase, seed int64, o obs) (in input, vs []viol) {
 			return
 		}
 		// smudge clause: non-pointer bytes pass through `git lfs smudge` unchanged, success status
-		sm := filt.RunChunked(env, repo, chunks, maxPauses, nil, "git-lfs", "smudge", "--", path)
+		sm := filt.RunChunked(env, repo, chunks, maxPauses, penv, "git-lfs", "smudge", "--", path)
 		o.add("processes", 1)
 		o.add("smudge_passthroughs_compared", 1)
 		switch {
@@ -315,7 +349,7 @@ func execFilter(c fcase, seed int64, o obs) (in input, vs []viol) {
 		if npk > 2000 {
 			gap = 16
 		}
-		cl, err := fpclient.Start(env, repo, []string{"clean", "smudge"}, nil)
+		cl, err := fpclient.Start(env, repo, []string{"clean", "smudge"}, penv)
 		if err != nil {
 			if cl != nil {
 				cl.Kill()
@@ -432,6 +466,58 @@ func execFilter(c fcase, seed int64, o obs) (in input, vs []viol) {
 		}
 		if code, se := closeIt(); code != 0 {
 			add("filter-process-exit-nonzero", "process", fmt.Sprintf("exit %d: %s", code, sbx.Trunc([]byte(se), 800)), nil)
+		}
+	case "githash-process", "githash-oneshot":
+		// Real Git runs the clean filter over its stdin for the named path (`git hash-object --path`):
+		// whatever file sits at the path is at most a size hint. The filter output is read back
+		// with the LFS filters disabled and judged by the same oracles.
+		traceFile := filepath.Join(env.Root, "git-trace.log")
+		res := env.Run(sbx.RunOpt{Dir: repo, Stdin: bytes.NewReader(in.B), Env: append(append([]string{}, penv...), "GIT_TRACE="+traceFile)}, "git", "hash-object", "-w", "--path", path, "--stdin")
+		o.add("git_commands", 1)
+		o.add("git_hash_object_runs", 1)
+		if res.GoCrash() {
+			add("go-panic", "clean", "git hash-object --path crashed in the clean filter: "+sbx.Trunc(res.Stderr, 1500), nil)
+			return
+		}
+		if !res.OK() {
+			add("clean-failed", "clean", "git hash-object -w --path --stdin failed: "+res.String(), nil)
+			return
+		}
+		if countTrace(traceFile, "git-lfs clean")+countTrace(traceFile, "git-lfs filter-process") == 0 {
+			panic("git hash-object --path did not run the LFS clean filter (monitor observed nothing)")
+		}
+		id := strings.TrimSpace(string(res.Stdout))
+		blob := env.PlainGit(repo, "cat-file", "blob", id)
+		if !blob.OK() {
+			panic("cannot read back the blob written by git hash-object: " + blob.String())
+		}
+		out := blob.Stdout
+		after := filt.CountObjects(gitDir)
+		o.add("clean_outputs_compared", 1)
+		switch in.Family {
+		case "P":
+			o.add("object_count_checks", 1)
+			if sym, what := judgeP(in, out, before, after); sym != "" {
+				add(sym, "clean", what, map[string]any{"clean_output": sbx.Trunc(out, 600), "stderr": sbx.Trunc(res.Stderr, 600)})
+			}
+		case "N":
+			if sym, what := judgeN(gitDir, in, out, c.CfgExt); sym != "" {
+				add(sym, "clean", what, map[string]any{"clean_output": sbx.Trunc(out, 600)})
+				return
+			}
+			sm := env.Run(sbx.RunOpt{Dir: repo, Env: penv}, "git", "cat-file", "--filters", "--path="+path, id)
+			o.add("git_commands", 1)
+			o.add("smudge_roundtrips_compared", 1)
+			switch {
+			case sm.GoCrash():
+				add("go-panic", "smudge-roundtrip", "git cat-file --filters crashed in the smudge filter: "+sbx.Trunc(sm.Stderr, 1500), nil)
+			case !sm.OK():
+				add("smudge-roundtrip-failed", "smudge-roundtrip", "git cat-file --filters of the pointer just produced by clean failed: "+sm.String(), nil)
+			case !bytes.Equal(sm.Stdout, in.B):
+				add("smudge-roundtrip-mismatch", "smudge-roundtrip", fmt.Sprintf("smudge(clean(x)) has %d bytes (sha %s), x has %d bytes (sha %s)", len(sm.Stdout), sbx.Sha256Hex(sm.Stdout), len(in.B), sbx.Sha256Hex(in.B)), nil)
+			}
+		default:
+			panic("githash cases are generated for families P and N only")
 		}
 	default:
 		panic("unknown mode " + c.Mode)
